@@ -202,7 +202,13 @@ def noise_cases(ctx):
     for k in range(3 if ctx.quick() else 20):
         layers = [("wl.L%d" % i, list(range(i * 1000, i * 1000 + rng.choice([150, 300])))) for i in range(rng.choice([2, 3]))]
         seed = rng.randint(0, 10 ** 9)
+        state0 = _random.getstate()
         ref = real_shuffle(layers, seed)[0]
+        if _random.getstate() != state0:
+            ctx.violation("seed %d: the shuffle reads or re-seeds the random module's shared generator (its state changed): "
+                          "the order depends on every other user of `random`" % seed,
+                          {"seed": seed, "sizes": [len(x[1]) for x in layers]}, signature="C11:shared-generator")
+            continue
         stop.clear()
         th = threading.Thread(target=noise, daemon=True)
         old_int = sys.getswitchinterval()
